@@ -1,6 +1,8 @@
 package main
 
 import (
+	"time"
+
 	"verifharness/internal/rec"
 )
 
@@ -23,6 +25,12 @@ func init() {
 			}
 			if tier == "thorough" {
 				o.maxNodes = 20
+			}
+			if idx%3 == 0 {
+				// a sub-process whose completion monitor / relay is slow to subscribe: nothing of the content may have
+				// been started before them
+				o.slowPoints = []string{"subprocess.monitor.before_subscribe", "subprocess.run.before_subscribe"}
+				o.slowFor = 20 * time.Millisecond
 			}
 			seed := rng.U64()
 			out.Begin("c12")
